@@ -54,7 +54,7 @@ try:
             o = os.path.join(cw, "c%d_%d.json" % (ci, sh))
             if os.path.exists(o): os.remove(o)
             cmd = [FETCHX, "-n", str(n), "-sub", sub, "-entry", entry, "-preempt", str(pre), "-env", str(env), "-faults", "-jumps", "-faultkinds", str(kinds), "-shard", str(sh), "-nshards", str(shards),
-                   "-budget", "6000" if thorough else "1200", "-scratch", scratch, "-out", o] + (["-small"] if small else [])
+                   "-budget", "6000" if thorough else "300", "-scratch", scratch, "-out", o] + (["-small"] if small else [])
             jobs.append((ci, sh, o, cmd))
     def runj(j):
         return j, subprocess.run(j[3], env=dict(os.environ, GOMAXPROCS="1"), capture_output=True, text=True)
@@ -65,7 +65,7 @@ try:
             continue
         d = json.load(open(o))
         cfg["scenario"], cfg["bounds"] = d["scenario"], d["bounds"]
-        cfg["execs"] += d["execs"]; cfg["points"] += d["points"]; cfg["timed_out"] |= d["timed_out"] or d["capped"]
+        cfg["execs"] += d["execs"]; cfg["points"] += d["points"]; cfg["timed_out"] |= d["timed_out"] or d["capped"] or d.get("undecided_polling_horizons", 0) > 0
         cfg["max_choice_depth"] = max(cfg["max_choice_depth"], d["max_choice_depth"])
         for k, v in d["outcomes"].items():
             cfg["outcomes"][k] = cfg["outcomes"].get(k, 0) + v
